@@ -291,7 +291,7 @@ pub fn random_msg(rng: &mut impl Rng, d: &Driver, hostile: bool) -> MsgSpec {
         // now and then a well-formed message that carries an attribute of an unregistered type
         hostile: match rng.random_range(0..100) {
             0..=5 => json!({"kind":"unknown_attr","idx":0,"off":0,"s":rng.random_range(0..14)}),
-            6..=9 if d.cfg.fp => json!({"kind": if rng.random_bool(0.5) { "fake_fp" } else { "reuse_fp" },"idx":0,"off":0,"s":0}),
+            6..=10 if d.cfg.fp => json!({"kind": *pick(rng, &["fake_fp", "reuse_fp", "double_fp"]),"idx":0,"off":0,"s":0}),
             _ => Value::Null,
         },
     }
@@ -390,7 +390,7 @@ pub fn guided_lt_msg(rng: &mut impl Rng, d: &Driver) -> MsgSpec {
 
 pub fn random_hostile(rng: &mut impl Rng) -> Value {
     let kind = *wpick(rng, &[(40, "inject"), (10, "trunc_val"), (10, "rand_val"), (8, "dup"), (12, "bitflip"),
-                           (10, "trunc"), (10, "extend"), (6, "fake_fp"), (6, "reuse_fp"), (4, "unknown_attr")]);
+                           (10, "trunc"), (10, "extend"), (6, "fake_fp"), (6, "reuse_fp"), (6, "double_fp"), (4, "unknown_attr")]);
     json!({"kind":kind,"idx":rng.random_range(0..8),"off":rng.random_range(0..64),"s":rng.random_range(0..16)})
 }
 
